@@ -177,6 +177,26 @@ func (e *Exec) callStatic(fr *frame, st *State, fn *ssa.Function, args, bindings
 	if con := e.W.Contracts[fn]; con != nil && !con.Inline && e.spec == 0 {
 		return e.applyContract(st, con, args, resType, pos)
 	}
+	// a contract written for another instantiation of the same generic function
+	if o := fn.Origin(); o != nil && e.W.Contracts[fn] == nil && e.spec == 0 {
+		if tgt := e.W.ByOrigin[o]; tgt != nil && tgt != fn {
+			con := e.W.Contracts[tgt]
+			ta, tb := tgt.TypeArgs(), fn.TypeArgs()
+			if !con.Inline && len(ta) == len(tb) {
+				save := keySubst
+				for i := range ta {
+					x, y := baseTypeName(ta[i]), baseTypeName(tb[i])
+					if x != y {
+						keySubst = append(keySubst[:len(keySubst):len(keySubst)], [2]string{x, y})
+					}
+				}
+				e.W.Note(fmt.Sprintf("contract of %s applied to instantiation %s (same generic code; heap names mapped by type argument)", con.Display(), shortFn(fn)))
+				res := e.applyContract(st, con, args, resType, pos)
+				keySubst = save
+				return res
+			}
+		}
+	}
 	if con := e.W.Contracts[fn]; con != nil && !con.Inline && e.spec > 0 && con.Trusted {
 		return e.applyContract(st, con, args, resType, pos)
 	}
@@ -448,6 +468,17 @@ func (e *Exec) verifIntrinsic(fr *frame, st *State, name string, fn *ssa.Functio
 		h.hasMod = true
 		h.frame.locs = append(h.frame.locs, frameLoc{"G|" + args[0].Name, NilAddr})
 		return unit
+	case "verif_modifies_ghostflag":
+		h := e.curH()
+		h.hasMod = true
+		key := "GH|" + args[0].Name
+		e.heapSort[key] = smt.Array(AddrS, smt.Bool)
+		h.frame.locs = append(h.frame.locs, frameLoc{key, IVal(args[1])})
+		return unit
+	case "verif_ghost_flag":
+		key := "GH|" + args[0].Name
+		hs := smt.Array(AddrS, smt.Bool)
+		return smt.Select(e.heap(st, key, hs), IVal(args[1]))
 	case "verif_ghost_int":
 		return e.ghostInt(st, args[0].Name)
 	case "verif_modifies_all":
@@ -531,7 +562,7 @@ func (e *Exec) verifIntrinsic(fr *frame, st *State, name string, fn *ssa.Functio
 		return isFresh(args[0], snap.Alloc)
 	case "verif_fresh_slice":
 		snap := e.snapshotFor(fr)
-		return smt.Or(isFresh(SArr(args[0]), snap.Alloc), smt.Eq(SCap(args[0]), smt.Const(64, 0)))
+		return smt.Or(isFresh(SArr(args[0]), snap.Alloc), smt.Eq(SArr(args[0]), NilAddr))
 	case "verif_eq":
 		return smt.Eq(args[0], args[1])
 	case "verif_same_array":
@@ -671,4 +702,16 @@ func (e *Exec) checkGhostWrite(st *State, key string, pos token.Pos) {
 			e.check(st, "frame", smt.False, pos, "")
 		}
 	}
+}
+
+// baseTypeName: the named type inside pointers, as printed in heap keys.
+func baseTypeName(t types.Type) string {
+	for {
+		if p, ok := t.(*types.Pointer); ok {
+			t = p.Elem()
+			continue
+		}
+		break
+	}
+	return types.TypeString(t, nil)
 }
